@@ -19,7 +19,7 @@ RULE = (
     "identifier, failed assert, unknown directive, misplaced sealing, invalid type parameter, invalid capacity, unknown data type, "
     "and the lazily committed / finalize-time ones: out-of-range constant, invalid attribute name, duplicate attribute name, bad "
     "aggregation, missing serialization mode, expression nested beyond the interpreter stack, file that is not UTF-8) and @print; prefix of 0..2 (thorough 3) and suffix of 0..1 (thorough 2) lines over "
-    "{empty, comment, field, field+comment, directive, padding field, constant}; LF / CRLF / lone CR / mixed line endings; location in {target, dependency in a lookup root, dependency of "
+    "{empty, comment, field, field+comment, directive, padding field, constant, a directive that continues on the next physical line (line break inside a string literal)}; LF / CRLF / lone CR / mixed line endings; location in {target, dependency in a lookup root, dependency of "
     "a dependency, dependency in the same root read after its referrer, dependency in the same root read before its referrer} with "
     "the reference on line 2..4 of the referrer. Non-trivial iff the prefix is non-empty or the location is not the target; "
     "distinct by canonical hash of the tuple"
@@ -29,7 +29,7 @@ ASSUMPTIONS = [
     "'exactly once per evaluated directive': a directive in the dependency closure is delivered once per read_namespace call",
 ]
 
-CTX = ["E", "C", "F", "F#", "A", "V", "K"]
+CTX = ["E", "C", "F", "F#", "A", "V", "K", "M"]
 
 
 def ctx_line(sym, i, tag):
@@ -45,6 +45,9 @@ def ctx_line(sym, i, tag):
         return "void3"
     if sym == "K":
         return "uint8 K%s%d = 1" % (tag.upper(), i)
+    if sym == "M":
+        # ONE statement that continues on the next physical line: the grammar lets a string literal contain a line break
+        return "@assert 'two\nlines' != ''"
     return "@assert true"
 
 
@@ -74,6 +77,7 @@ FAULTS = [
     ("deep-nesting", "@assert " + "(" * 100 + "1" + ")" * 100 + " == 1", False),
     ("deep-unary", "@assert " + "-" * 700 + "1 == 1", False),
     ("not-utf8", "# caf\udcff", False),  # written as the byte FF: the file cannot be decoded at all
+    ("assert-false-multiline", "@assert 'spans\ntwo lines' == ''", False),
     ("print", "@print 42", False),
     ("print-bare", "@print", False),
     ("print-bare-comment", "@print  # nothing to print", False),
@@ -85,13 +89,13 @@ LOCATIONS = ["target", "lookup-dep", "lookup-dep-of-dep", "same-root-referrer-fi
 def faulty_text(fault, prefix, suffix, eol):
     lines = ["@sealed" if fault != "missing-mode" else "# no mode"]
     for i, s in enumerate(prefix):
-        lines.append(ctx_line(s, i, "p"))
+        lines += ctx_line(s, i, "p").split("\n")
     fault_line = len(lines) + 1
     stmt = FAULT_BY_NAME[fault][1] if fault != "missing-mode" else "uint8 x"
     lines += stmt.split("\n")
     last_fault_line = len(lines)
     for i, s in enumerate(suffix):
-        lines.append(ctx_line(s, i, "s"))
+        lines += ctx_line(s, i, "s").split("\n")
     return join_lines(lines, eol), fault_line, last_fault_line
 
 
@@ -201,7 +205,7 @@ def check_case(case, R: engine.Acc):
         if not (FAULT_BY_NAME.get(fault, (0, 0, True))[2]):
             R.counters["line_not_reported:" + fault] += 1
         return
-    ok_lines = {fl} if fault not in ("duplicate-name",) else {fl, lfl}
+    ok_lines = {fl} if fault not in ("duplicate-name", "assert-false-multiline") else set(range(fl, lfl + 1))  # any line the statement(s) span
     if fault == "missing-mode":
         ok_lines = None  # no single offending statement; any line inside the file is not checkable
     if ok_lines is not None and e["line"] not in ok_lines:
